@@ -41,6 +41,9 @@ type MgrOpts struct {
 	PerNodeMD     bool              `json:"per_node_md,omitempty"`
 	NoConnect     bool              `json:"no_connect,omitempty"`
 	ListIDs       bool              `json:"list_ids,omitempty"` // ids generated from addresses (WithNodeList) instead of a map
+	// MaxSendBytes > 0 limits the size of a message the client may send (grpc.MaxCallSendMsgSize):
+	// larger requests fail in SendMsg although the stream stays healthy.
+	MaxSendBytes int `json:"max_send_bytes,omitempty"`
 }
 
 // QStep is one row of a quorum-function table.
@@ -172,6 +175,9 @@ func NewClient(cl *Cluster, o MgrOpts) (*Client, error) {
 	}
 	if o.WithBlock {
 		dial = append(dial, grpc.WithBlock())
+	}
+	if o.MaxSendBytes > 0 {
+		dial = append(dial, grpc.WithDefaultCallOptions(grpc.MaxCallSendMsgSize(o.MaxSendBytes)))
 	}
 	dt := o.DialTimeoutMs
 	if dt == 0 {
